@@ -200,6 +200,9 @@ def jobs_for(pid, tier, seed):
         J.append(mfam('2 tasks, per-call timeouts x deadline orderings', ['C10', 'C04', 'C03'], 4 if q else 6, tasks=2, env={'create': OEPS, 'recycle': OEPS}, timeout_variants=TV, take=False, cancel=False, probe=False, lifo=False))
         J.append(mfam('1 task, per-call timeouts, hooks async', ['C10', 'C04', 'C03'], 5 if q else 8, tasks=1, hooks=H3A, env=E, timeout_variants=TV, take=False, probe=False, lifo=False))
         J.append(mfam('2 tasks, pool-level timeouts (pos,pos,pos)', ['C10', 'C04', 'C03'], 5 if q else 7, tasks=2, env={'create': OEPS, 'recycle': OEPS}, pool_timeouts=('pos', 'pos', 'pos'), take=False, probe=False, lifo=False))
+        J.append(mfam('2 tasks, pool-level timeouts (pos,pos,pos) with per-call timeouts that leave fields None: only the per-call values govern timeout_get()', ['C10', 'C04'], 4 if q else 6, tasks=2,
+                      env={'create': ('ok', 'stuck'), 'recycle': ('ok', 'stuck')}, pool_timeouts=('pos', 'pos', 'pos'), timeout_variants=[None, (None, None, None), (None, 'pos', None)] if q else [None, (None, None, None), ('zero', None, None), (None, 'pos', None)],
+                      take=False, probe=False, lifo=False))
         J.append(mfam('2 tasks, pool-level zero wait', ['C10'], 5 if q else 7, tasks=2, env={'create': OEP, 'recycle': OEP}, pool_timeouts=('zero', None, None), take=False, probe=False, lifo=False))
         TG = [('timeout_get', 'zero'), ('timeout_get', 'pos'), ('timeout_get', None), 'get', 'try_get']
         for rt_ in (True, False):
